@@ -328,6 +328,9 @@ func c12Check(cs c12Case) (ok bool, sig, expected, observed string) {
 	data := c12Data(b)
 	keep := c12Data(c12Build(cs.Spec)) // an independent, equal copy
 	src := "[{{ d" + cs.Path + " }}]"
+	if !b.supported && !b.ambig && cs.Path == "" {
+		src = "[{{ other }}]" // the template does not even touch the unsupported value: the call must fail all the same
+	}
 	o := runString(src, data)
 	shape := c12Shape(cs.Spec)
 	if o.Kind == KPanic || o.Kind == KHang {
